@@ -4,7 +4,7 @@ import json, os
 ROOT = os.path.dirname(os.path.dirname(os.path.abspath(__file__)))
 CLAIMS = {
  'C01': ('Verus: contracts on the real text of same_day, bed_and_breakfast, section104, acquisition_ledger, process_sell (rule order, leg quantities, window 0<days<=30, weighted same-day cost, pool average cost, per-look-ahead reservations, claim ledger); Kani: the two day-difference tests accept exactly 1..=30 (complete over i64), thorough tier adds the calendar part on the real chrono.',
-         'Unbounded in ledger length and iteration count; relative to A-dec (exact decimals), A-date, A-map. The day loop is proved to add the day\'s purchases before its sales, to pool after the sales and to leave nothing of earlier days unallocated (L2: inv_lots, day order, pooling); SAME DAY RULE IN FULL (C01.sameday_first, INV_RES closed): for every (date, security) the Same Day legs Matcher::process returns add up to min(shares sold that day, shares bought that day) of the caller\'s list - each day\'s disposal is identified first with that day\'s acquisitions, whatever earlier disposals claimed under the 30-day rule: the look-ahead keeps claims_on(day) <= max(0, bought - sold that day) (inv_res, carried by the per-look-ahead reservation counter res_left == max(day\'s disposals - unclaimed shares seen, 0)), so at least min(bought, sold) of the day\'s purchases is still available when the day arrives, and the day\'s sales take it first. NOTHING SKIPPED (INV_LEGS closed): Matcher::process returns, for every (disposal date, security), legs whose quantities add up to exactly the shares the caller\'s list sells of that security on that date (through the sort/merge of preprocess, whose per-day totals are proved order- and fill-split-independent, and through every SELL line of the day loop). "nothing skipped in the 30-day window" (the 30-day legs are as large as the rule allows) and equality with an independent whole-ledger evaluation are not decided.'),
+         'Unbounded in ledger length and iteration count; relative to A-dec (exact decimals), A-date, A-map. The day loop is proved to add the day\'s purchases before its sales, to pool after the sales and to leave nothing of earlier days unallocated (L2: inv_lots, day order, pooling); SAME DAY RULE IN FULL (C01.sameday_first, INV_RES closed): for every (date, security) the Same Day legs Matcher::process returns add up to min(shares sold that day, shares bought that day) of the caller\'s list - each day\'s disposal is identified first with that day\'s acquisitions, whatever earlier disposals claimed under the 30-day rule: the look-ahead keeps claims_on(day) <= max(0, bought - sold that day) (inv_res, carried by the per-look-ahead reservation counter res_left == max(day\'s disposals - unclaimed shares seen, 0)), so at least min(bought, sold) of the day\'s purchases is still available when the day arrives, and the day\'s sales take it first. NOTHING SKIPPED (INV_LEGS closed): Matcher::process returns, for every (disposal date, security), legs whose quantities add up to exactly the shares the caller\'s list sells of that security on that date (through the sort/merge of preprocess, whose per-day totals are proved order- and fill-split-independent, and through every SELL line of the day loop). NOTHING SKIPPED IN THE WINDOW (C01.window_full): if part of a sale is still unmatched after its look-ahead, every day x with 0 < x - D <= 30 has given all the rule allows - its purchases not already claimed less what day x needs for its own disposals (claims_on grows by exactly max(unclaimed - day\'s disposals, 0)); the day-30 edge is therefore decided by Verus as well as by Kani. Not decided: and equality with an independent whole-ledger evaluation are not decided.'),
  'C02': ('Verus: every lot operation preserves wf_lot (consumed+reserved+in_pool<=original, all >=0) and moves exactly the reported amount; legs of a sale sum to its quantity (process_sell: Ok => sum == amount); claims against a purchase never exceed it (fc_capped through the look-ahead and the day loop); pool quantity updates on pooling / S104 / SPLIT / UNSPLIT.',
          'Step-wise conservation proved for all inputs; END-TO-END for the first sentence (C02.leg_sum.total, INV_LEGS): the legs Matcher::process returns for a (date, security) add up to the quantity the input sells that day, for every ledger it accepts. CLOSING HOLDING (INV_POS closed, C02.closing): Matcher::process carries, for every security and through every loop of the day cycle, pool + what is still available of the day\'s purchases == position + shares already disposed of under the 30-day rule whose purchases are still to come, where the position is acquisitions - disposals rescaled by the splits that have taken effect (a fold over the date-ordered line list, net_total) and the pending shares are the claims converted by the composition of the splits between now and the purchase (pend/gfac; key lemma: the look-ahead\'s own factor split_factor equals that composition). At the end nothing is pending and nothing unallocated, so the returned Section 104 quantity of every security EQUALS its position. Stated over the sorted-and-merged list (per-(date, security, side) share totals proved equal to the input\'s; that SPLIT lines pass through preprocess unchanged is not proved). A-dec.'),
  'C03': ('Verus: one unit cost per lot used by same-day, 30-day and pooling; same-day legs consume lots proportionally so leg cost == sum(consumed_k * unit_k); pooled cost == cost of exactly the shares marked in_pool; S104 leg cost leaves the pool; capital-return/accumulation offsets sum to exactly the adjustment.',
